@@ -124,13 +124,18 @@ def reg_cfg(registry: StringSerializableRegistry):
     }
 
 
+def regex_name(p):
+    """the model treats a pattern as an opaque name into the match table; a compiled pattern is named with its flags"""
+    return p if isinstance(p, str) else "%s\u27e8flags=%d\u27e9" % (p.pattern, p.flags)
+
+
 def gen_cfg(registry, dict_fields=(), dict_regex=()):
     return {
         "maxLit": StringLiteral.MAX_LITERALS,
         "maxLen": StringLiteral.MAX_STRING_LENGTH,
         "reg": reg_cfg(registry),
         "dictFields": list(dict_fields),
-        "dictRegex": list(dict_regex),
+        "dictRegex": [regex_name(p) for p in dict_regex],
     }
 
 
@@ -176,9 +181,9 @@ def oracles(registry, values=(), keys=(), dict_regex=(), extra_classes=()):
             acc.append([cls.__name__, s, accepts(cls, s)])
     rex = []
     for p in dict_regex:
-        c = re.compile(p)
+        c = re.compile(p)          # a compiled pattern is returned as it is
         for k in keys:
-            rex.append([p, k, c.match(k) is not None])
+            rex.append([regex_name(p), k, c.match(k) is not None])
     nonprint = sorted({ord(ch) for k in keys for ch in k if ord(ch) > 127 and not ch.isprintable()})
     ser_str = [[c.__name__, str(c)] for c in list(registry.types) + list(SER_CLASSES.values())]
     seen = set()
